@@ -647,6 +647,21 @@ def _count_writers(F):
     return writers
 
 
+def _count_carriers(f):
+    """locals whose value is moved wholesale into self.free_clusters_count and which are built as Some(..) / None only
+    (`self.free_clusters_count = self.free_clusters_count.map(|n| n + 1)`, lowered): local -> True"""
+    out = {}
+    for b, i, s in f.stmts():
+        if s["k"] == "Assign" and s["p"]["proj"] and s["rv"]["k"] == "Use" and s["rv"]["op"].get("k") in ("move", "copy") and not s["rv"]["op"]["p"]["proj"]:
+            proj = f.canon_place(s["p"])["proj"]
+            if proj and proj[-1][0] == "field" and proj[-1][2] == "free_clusters_count":
+                l = s["rv"]["op"]["p"]["l"]
+                ds = f.defs().get(l, [])
+                if ds and all(d[0] == "assign" and d[3]["k"] == "Aggregate" and d[3].get("adt", "").endswith("option::Option") for d in ds):
+                    out[l] = True
+    return out
+
+
 @rule("FT7", ["C05", "C16"], floor=4,
       doc="free-count pairing: in every function that updates free_clusters_count (besides mount) each update_fat(.., EMPTY) is followed by exactly one +1 before the next EMPTY event or the Ok return, each update_fat(.., END_OF_FILE) allocation by exactly one -1 on every Ok path, and the +-1 cannot overflow (saturating/checked)")
 def ft7(F, R):
@@ -658,16 +673,26 @@ def ft7(F, R):
         fn = F.fn(w)
         pairs_eof = w.endswith("::alloc_cluster")  # END_OF_FILE marks an allocation only there (truncate re-terminates an existing chain)
 
+        carriers = _count_carriers(fn)
+
         def classify(kind, payload, fn=fn):
             if kind == "stmt":
                 f, b, i, s = payload
                 e = ret_event(f, b, s)
                 if e:
                     return e
-                if s["k"] == "Assign" and s["p"]["proj"]:
-                    dst = f.term_of_place(s["p"])
+                carried = s["k"] == "Assign" and not s["p"]["proj"] and s["p"]["l"] in carriers
+                if carried and not (s["rv"].get("variant") == 1 and s["rv"]["ops"]):
+                    # None built for the count: no change where the old value was tested to be None, else the count is forgotten
+                    if guarded(f, b, lambda g: g.kind == "variant" and g.variant == "None" and "free_clusters_count" in tstr(g.term))[0]:
+                        return None
+                    return ("count-other", f.loc(b, i), "None")
+                if s["k"] == "Assign" and s["p"]["proj"] and s["rv"]["k"] == "Use" and s["rv"]["op"].get("k") in ("move", "copy") and s["rv"]["op"]["p"]["l"] in carriers and not s["rv"]["op"]["p"]["proj"]:
+                    return None                                     # the carrier stored: its definitions are the events
+                if s["k"] == "Assign" and s["p"]["proj"] or carried:
+                    dst = f.term_of_place(s["p"]) if not carried else ("other", "free_clusters_count")
                     if "free_clusters_count" in tstr(dst):
-                        v = f.term_of_rvalue(s["rv"], b)
+                        v = f.term_of_rvalue(s["rv"], b) if not carried else f.term_of_operand(s["rv"]["ops"][0], b)
                         for op, sign in (("Add", "+"), ("Sub", "-")):
                             if v[0] == "bin" and v[1] == op and v[3][:2] == ("c", 1):
                                 return ("count", sign, "unchecked", f.loc(b, i))
@@ -745,8 +770,9 @@ def ft7(F, R):
             R.ok(fn, short + ":pairing", "every EMPTY/END_OF_FILE event paired with +1/-1 (product states %d)" % n)
         # overflow safety of each update
         for b, i, s in fn.stmts():
-            if s["k"] == "Assign" and s["p"]["proj"] and "free_clusters_count" in tstr(fn.term_of_place(s["p"])):
-                v = fn.term_of_rvalue(s["rv"], b)
+            carried = s["k"] == "Assign" and not s["p"]["proj"] and s["p"]["l"] in carriers and s["rv"].get("variant") == 1 and s["rv"]["ops"]
+            if carried or s["k"] == "Assign" and s["p"]["proj"] and "free_clusters_count" in tstr(fn.term_of_place(s["p"])):
+                v = fn.term_of_rvalue(s["rv"], b) if not carried else fn.term_of_operand(s["rv"]["ops"][0], b)
                 if v[0] == "bin" and v[1] in ("Add", "Sub"):
                     R.bad(fn, "count-overflow:" + v[1], "`free_clusters_count %s= 1` on the untrusted on-disk count can overflow-panic (the FSInfo value may be 0 or 0xFFFFFFFE)" % ("+" if v[1] == "Add" else "-"), fn.loc(b, i))
                 elif v[0] == "call" and v[1] and ("saturating_" in v[1] or "checked_" in v[1]):
@@ -1154,7 +1180,12 @@ def is1(F, R):
                 names = [e[2] for e in f.canon_place(s["p"])["proj"] if e[0] == "field"]
                 if names and names[-1] == "free_clusters_count":
                     n += 1
-                    R.require(f.npath == "fat::volume::parse_volume", f, "assign-count", "free_clusters_count assigned wholesale outside mount", f.loc(b, i))
+                    okw = f.npath == "fat::volume::parse_volume"
+                    if not okw and s["rv"]["k"] == "Use" and s["rv"]["op"].get("k") in ("move", "copy") and s["rv"]["op"]["p"]["l"] in _count_carriers(f):
+                        # an Option rebuilt from the old one: Some(..) only where the old value was tested to be Some
+                        okw = all(guarded(f, d[1], lambda g, d=d: g.kind == "variant" and g.variant == ("None" if d[3].get("variant") == 0 else "Some") and "free_clusters_count" in tstr(g.term))[0]
+                                  for d in f.defs().get(s["rv"]["op"]["p"]["l"], []))
+                    R.require(okw, f, "assign-count", "free_clusters_count assigned wholesale outside mount", f.loc(b, i))
     R.require(n >= 1, None, "mount-assign", "mount does not initialise free_clusters_count from the info sector")
 
 
